@@ -1,7 +1,7 @@
 """C19 stage 4, child side: outcomes of a fixed set of encode/decode calls per entity class, with the readers and
 writers of the classes created and used in a given ORDER inside one fresh process.
 
-usage: python -m kv.c19_orders <out.json> forward|reverse|shuffle:<seed>|list:<path,path,...> [only=<path,path>]
+usage: python -m kv.c19_orders <out.json> forward|reverse|nested-first|top-first|shuffle:<seed>|list:<path,path,...> [only=<path,path>]
 
 The parent (kv.props.c19) starts several of these with different orders and compares the outcomes: the result of a
 call may depend only on the value / input bytes and the class, so every (class, call) must have the same outcome in
@@ -179,6 +179,13 @@ def order_of(spec: str) -> list[str]:
         return paths
     if spec == "reverse":
         return paths[::-1]
+    if spec in ("nested-first", "top-first"):
+        # all nested structs before all top-level classes (what a client that pre-builds codecs for the small structs does),
+        # or the other way round; each group in path order
+        nested = {f"{c.__module__}:{c.__qualname__}" for c in D.all_classes() if getattr(getattr(c, "__type__", None), "name", "") == "nested"}
+        a = [p for p in paths if p in nested]
+        b = [p for p in paths if p not in nested]
+        return a + b if spec == "nested-first" else b + a
     if spec.startswith("shuffle:"):
         rng = random.Random(int(spec.split(":", 1)[1]))  # harness-level ordering, a pure function of the seed
         rng.shuffle(paths)
